@@ -56,6 +56,11 @@ func (c *Ctx) c08Resolve() error {
 				fmt.Fprintf(&body, "\ttype %s struct {\n\t\tv int\n\t}\n", t)
 			}
 			body.WriteString("\tzz := 0\n")
+			zzLine := strings.Count(body.String(), "\n") // (relative to the body's first line) names the function being compiled
+			if form < 4 && r.Intn(3) == 0 { // a function literal inside the body: afterwards the names are the function's again
+				body.WriteString("\tlf := func(q int) int {\n\t\treturn q + 1\n\t}\n\t_ = lf\n")
+				c.Rep.Count("resolve-after-nested-literal")
+			}
 			first := 0 // line of the first use, relative to the body's first line
 			first = strings.Count(body.String(), "\n")
 			for _, u := range uses {
@@ -111,6 +116,12 @@ func (c *Ctx) c08Resolve() error {
 			}
 			var got []string
 			fn := ""
+			for _, i := range ins { // the function's name as the compiler has it, from the first statement of the body
+				if i.Line == headLines+zzLine && i.Func != "" {
+					fn = i.Func
+					break
+				}
+			}
 			for ui := range uses {
 				line := headLines + first + ui + 1
 				tok := "?"
@@ -125,7 +136,9 @@ func (c *Ctx) c08Resolve() error {
 					} else {
 						continue
 					}
-					fn = i.Func
+					if fn == "" {
+						fn = i.Func
+					}
 					break
 				}
 				got = append(got, tok)
